@@ -65,7 +65,10 @@ EvRet ==
           /\ UNCHANGED used
   /\ pend' = [pend EXCEPT ![E.tid] = NoOp]
   /\ l' = l + 1 /\ UNCHANGED tid
-Next == EvCall \/ EvRet \/ \E g \in Tids : Lin(g)
+\* an operation never returned (the driver's watchdog, or every greenlet blocked for ever)
+EvHung == /\ l <= Len(Tr) /\ E.t = "hung" /\ l' = l + 1 /\ bad' = bad \cup {"C15_Completes"}
+          /\ UNCHANGED <<tid, store, pend, used>>
+Next == EvCall \/ EvRet \/ EvHung \/ \E g \in Tids : Lin(g)
 Spec == Init /\ [][Next]_vars
 AtEnd == l = Len(Tr) + 1
 Watch == AtEnd => PrintT(<<"END", T.id, bad>>)
